@@ -1,4 +1,7 @@
 import Martian.VdrAll
+import Proofs.VdrPath
+import Proofs.VdrInv
+import Proofs.VdrShrink
 
 /-! The product system is the family of its components: after any global
 history every fork is in the state its own projection of the history leads to. -/
@@ -60,5 +63,74 @@ theorem mem_proj {id : ForkId} {evs : List GEv} {e : Ev} (h : e ∈ proj id evs)
       · rcases ih h with ⟨m, e1, e2⟩ | h2
         · exact Or.inl ⟨m, e1, List.mem_cons_of_mem _ e2⟩
         · exact Or.inr (List.mem_cons_of_mem _ h2)
+
+/-! ### one disk under all forks -/
+
+theorem inside_trans {a b c : Path} (h1 : pathIsInside a b = true) (h2 : pathIsInside b c = true) :
+    pathIsInside a c = true := by
+  rw [pathIsInside_iff] at *
+  rcases h1 with rfl | h1
+  · exact h2
+  · rcases h2 with rfl | h2
+    · exact Or.inr h1
+    · right
+      obtain ⟨t, ht⟩ := h2
+      obtain ⟨u, hu⟩ := h1
+      exact ⟨t ++ '/' :: u, by rw [← hu, ← ht]; simp⟩
+
+theorem inside_comparable {d a b : Path} (h1 : pathIsInside d a = true) (h2 : pathIsInside d b = true) :
+    pathIsInside a b = true ∨ pathIsInside b a = true := by
+  rw [pathIsInside_iff] at h1 h2
+  rcases h1 with rfl | h1
+  · exact Or.inl ((pathIsInside_iff _ _).mpr h2)
+  · rcases h2 with rfl | h2
+    · exact Or.inr ((pathIsInside_iff _ _).mpr (Or.inr h1))
+    · have key : ∀ x y : Path, (x ++ ['/']) <+: (y ++ ['/']) → pathIsInside y x = true := by
+        intro x y hxy
+        rw [pathIsInside_iff]
+        obtain ⟨t, ht⟩ := hxy
+        by_cases h0 : t = []
+        · subst h0
+          left
+          have := List.append_inj' (by simpa using ht : x ++ ['/'] = y ++ ['/']) rfl
+          exact this.1.symm
+        · right
+          have e : x ++ ['/'] ++ t.dropLast ++ [t.getLast h0] = y ++ ['/'] := by
+            rw [← ht, List.append_assoc (x ++ ['/']), List.dropLast_concat_getLast h0]
+          have := List.append_inj' e rfl
+          exact ⟨t.dropLast, this.1⟩
+      rcases List.prefix_or_prefix_of_prefix h1 h2 with h | h
+      · exact Or.inr (key a b h)
+      · exact Or.inl (key b a h)
+
+/-- where the forks live: every fork's entries lie inside its own directory, the
+directories of different forks are not inside one another, fork ids are unique,
+nothing has been removed yet -/
+structure Layout (dir : ForkId → Path) (fs : List PFork) : Prop where
+  own : ∀ f ∈ fs, ∀ d ∈ f.st.disk, pathIsInside d.path (dir f.id) = true
+  apart : ∀ f ∈ fs, ∀ q ∈ fs, f.id ≠ q.id →
+    pathIsInside (dir f.id) (dir q.id) = false ∧ pathIsInside (dir q.id) (dir f.id) = false
+  uniq : ∀ f ∈ fs, ∀ q ∈ fs, f.id = q.id → f = q
+  fresh : ∀ f ∈ fs, f.st.removed = []
+
+/-- no path a fork removes has an entry of ANOTHER fork at or below it -/
+theorem no_cross_fork_removal {dir : ForkId → Path} {fs : List PFork} (lay : Layout dir fs) (evs : List GEv)
+    {f q : PFork} (hf : f ∈ fs) (hq : q ∈ fs) (hne : f.id ≠ q.id) :
+    ∀ g ∈ (run f.cfg f.st (proj f.id evs)).removed, ∀ d ∈ q.st.disk, pathIsInside d.path g.path = false := by
+  intro g hg d hd
+  cases hin : pathIsInside d.path g.path with
+  | false => rfl
+  | true =>
+    exfalso
+    have hg0 : g ∈ f.st.disk := by
+      rcases (shr_run f.cfg f.st (proj f.id evs)).removed g hg with h | h
+      · rw [lay.fresh f hf] at h; cases h
+      · exact h
+    have h1 := inside_trans hin (lay.own f hf g hg0)
+    have h2 := lay.own q hq d hd
+    obtain ⟨a1, a2⟩ := lay.apart f hf q hq hne
+    rcases inside_comparable h1 h2 with h | h
+    · rw [a1] at h; cases h
+    · rw [a2] at h; cases h
 
 end Martian.Vdr
